@@ -29,7 +29,7 @@ DefaultDumper = getattr(yaml, "CDumper", yaml.Dumper)
 
 
 def _default_encoder(data: Any) -> EncodedData:
-    return yaml.dump(data, Dumper=DefaultDumper)
+    return yaml.dump(data, Dumper=DefaultDumper, sort_keys=False)
 
 
 def _default_decoder(data: EncodedData) -> Any:
